@@ -171,8 +171,12 @@ def sequential_history(config, seed, workdir):
         be.close()
 
 
-def concurrent_history(kind, seed, workdir):
-    """2-3 threads asking (and one enqueueing) concurrently under the line-level scheduler"""
+def concurrent_history(kind, seed, workdir, focus=None):
+    """2-3 threads asking (and one enqueueing) concurrently under the line-level scheduler.
+
+    focus = p (an integer): the focused family "an asker meets an enqueuer": the queue holds 0 or 1 trial, worker 1 asks
+    twice, worker 2 enqueues one trial (and asks once); worker 1 runs p yield points, then worker 2 runs to its end, then
+    worker 1 finishes.  Afterwards the queue is drained as usual: nothing may be left, nothing handed out twice."""
     common.use_repo()
     import optuna
     from . import c03
@@ -203,11 +207,11 @@ def concurrent_history(kind, seed, workdir):
         s0 = optuna.create_study(storage=storages[0], study_name="q", sampler=optuna.samplers.RandomSampler(seed=seed))
         ev = []
         rec0 = Recorder(s0, ev.append)
-        n_pre = rng.randint(1, 3)
+        n_pre = rng.randint(1, 3) if focus is None else seed % 2
         for _ in range(n_pre):
             rec0.enqueue(rng, "enqueue")
         queued = [n_pre]
-        nw = rng.choice([2, 2, 3])
+        nw = rng.choice([2, 2, 3]) if focus is None else 2
 
         def mk(w, storage, enq_too):
             def body(worker):
@@ -217,20 +221,23 @@ def concurrent_history(kind, seed, workdir):
                 if enq_too:
                     rec.enqueue(r, "enqueue")
                     queued[0] += 1
-                for _ in range(r.choice([1, 2])):
+                for _ in range(r.choice([1, 2]) if focus is None else (2 if w == 1 else seed // 2 % 2)):
                     try:
                         rec.ask_run_tell(w, r, names=["x", "c"])
                     except Exception as e:  # noqa
                         sched.event({"e": "error", "w": w, "err": type(e).__name__ + ":" + str(e)[:100]})
             return body
         for w in range(1, nw + 1):
-            sched.add(mk(w, storages[w - 1], enq_too=(w == nw and rng.random() < 0.5)))
-        info = sched.run(c03.random_schedule(rng.getrandbits(30), rng.choice([0.1, 0.3, 0.6]))(sched))
+            sched.add(mk(w, storages[w - 1], enq_too=(w == nw and (focus is not None or rng.random() < 0.5))))
+        if focus is None:
+            info = sched.run(c03.random_schedule(rng.getrandbits(30), rng.choice([0.1, 0.3, 0.6]))(sched))
+        else:
+            info = sched.run(c03.preempt_at(focus, first=1)(sched))
         ev += sched.log
         obs_study = optuna.load_study(study_name="q", storage=observer if kind in ("rdb_conns",) else storages[0])
         drain_and_final(obs_study, Recorder(obs_study, ev.append), queued[0])
-        return {"config": kind, "ev": ev, "deadlock": int(info["deadlock"]),
-                "replay": {"family": "conc", "config": kind, "seed": seed}}
+        return {"config": kind, "ev": ev, "deadlock": int(info["deadlock"]), "lines": [w.lines for w in sched.workers],
+                "replay": {"family": "conc", "config": kind, "seed": seed, "focus": focus}}
     finally:
         close()
 
@@ -239,6 +246,8 @@ def _task(args):
     fam, config, seeds = args
     workdir = tempfile.mkdtemp(prefix="c04-", dir=os.environ.get("VERIF_SCRATCH_BASE", "/var/tmp"))
     try:
+        if fam == "focus":
+            return [concurrent_history(config, s, workdir, focus=p) for s, p in seeds]
         return [(sequential_history if fam == "seq" else concurrent_history)(config, s, workdir) for s in seeds]
     finally:
         shutil.rmtree(workdir, ignore_errors=True)
@@ -275,7 +284,8 @@ def judge(ctx, traces, label):
 def run(ctx):
     ctx.rule = ("(a) sequential enqueue_trial / add_trial(WAITING) / ask / suggest / tell programs through the real Study API "
                 "on nine backend configurations, (b) 2-3 threads asking (one also enqueueing) concurrently under the "
-                "line-level scheduler on in-memory and journal storages and under the SQL-statement scheduler on SQLite; "
+                "line-level scheduler on in-memory and journal storages and under the SQL-statement scheduler on SQLite, "
+                "(c) an asker preempted once at every yield point while another thread enqueues (in-memory, journal); "
                 "afterwards the queue is drained; every execution validated by TLC against WaitQueueTrace; distinct = "
                 "distinct (backend, event sequence) executions with at least one queued trial")
     for cfg, label in (("WaitQueue_q" if ctx.quick else "WaitQueue_t", "atomic compare-and-set"),):
@@ -297,6 +307,21 @@ def run(ctx):
         n = n_conc // 3 if kind in ("rdb_conns", "grpc_journal", "grpc_inmemory") else n_conc
         seeds = [ctx.seed * 100000 + 5000 + i for i in range(n)]
         tasks += [("conc", kind, seeds[i::4]) for i in range(4)]
+    # focused family: single preemption of an asker at every (quick: every k-th) yield point while an enqueuer runs
+    n_focus = 0
+    for kind in ("inmemory", "journal_threads"):
+        for variant in range(4):                     # queue empty / one trial x enqueuer asks or not
+            seed = ctx.seed * 100000 + 9000 + variant
+            dry = _task(("focus", kind, [(seed, 10 ** 9)]))[0]
+            n = dry["lines"][0] + 2
+            pts = list(range(0, n + 1))
+            if ctx.quick and len(pts) > 70:
+                off = ctx.rng.randrange(0, 3)
+                pts = pts[off::max(1, len(pts) // 70)]
+            items = [(seed, p) for p in pts]
+            n_focus += len(items)
+            tasks += [("focus", kind, items[i::4]) for i in range(4)]
+    ctx.notes["focused_asker_vs_enqueuer_executions"] = n_focus
     traces = []
     with cf.ProcessPoolExecutor(max_workers=16) as ex:
         for res in ex.map(_task, tasks):
@@ -330,5 +355,8 @@ def run(ctx):
 
 def replay(ctx, data):
     r = data["replay"]
-    traces = _task(("seq" if r["family"] == "seq" else "conc", r["config"], [r["seed"]]))
+    if r.get("focus") is not None:
+        traces = _task(("focus", r["config"], [(r["seed"], r["focus"])]))
+    else:
+        traces = _task(("seq" if r["family"] == "seq" else "conc", r["config"], [r["seed"]]))
     judge(ctx, traces, "replay")
